@@ -7,6 +7,7 @@ package main
 
 import (
 	"fmt"
+	"os"
 	"go/types"
 	"sort"
 	"strings"
@@ -55,6 +56,7 @@ type PathResult struct {
 	Forks      int
 	Forced     int
 	Covers     map[string]bool
+	ForkSites  map[string]int
 	Funcs      map[string]int
 	Stubs      map[string]int
 	Sample     *PathSample
@@ -131,6 +133,8 @@ type Run struct {
 	violation *Violation
 
 	symCells      map[*value]*symCell
+	curFrame      *frame
+	forkSites     map[string]int
 	depth         int
 	scaledChecked map[*Term]bool
 	scaledQueries int
@@ -142,6 +146,8 @@ type Run struct {
 	inInit        int
 	initWritten   map[*ssa.Global]bool
 }
+
+var forkStats = os.Getenv("GOSYM_FORKSTATS") != ""
 
 type obsVal struct {
 	label string
@@ -318,6 +324,12 @@ func (r *Run) branch(c *Term) bool {
 	}
 	r.nDecided++
 	r.nForks++
+	if forkStats && r.curFrame != nil {
+		if r.forkSites == nil {
+			r.forkSites = make(map[string]int)
+		}
+		r.forkSites[r.curFrame.pos()]++
+	}
 	r.pushSibling(0)
 	r.record(1)
 	r.assertPC(c)
